@@ -884,7 +884,9 @@ func (s *dbSuite) genSmallKey(r *rand.Rand) []byte { return obsKeys[r.Intn(4)] }
 
 func (s *dbSuite) genTTL(r *rand.Rand) (ttl uint32, ts uint64) {
 	now := uint64(s.now())
-	switch r.Intn(6) {
+	switch r.Intn(7) {
+	case 6:
+		return 1000, now + 3000 // written "in the future" (another machine's clock): live
 	case 0:
 		return 1000, now - 5000 // expired
 	case 1:
@@ -1131,18 +1133,34 @@ func (s *dbSuite) genOp(r *rand.Rand, dead bool) string {
 			}
 			n := len(s.usedKeys[b])
 			lim := r.Intn(n+2) + 1
-			if r.Intn(3) == 0 {
+			switch r.Intn(6) {
+			case 0, 1:
 				lim = -1
+			case 2:
+				lim = 1 + r.Intn(3) // a short page
+			case 3:
+				lim = n + 5 + r.Intn(20) // more than the bucket can hold
 			}
-			return fmt.Sprintf("prefix %s %s %d %d %d", hb, hx(pre), r.Intn(n+2), lim, now)
+			// offsets: mostly inside the block (the number of distinct live keys is far below the number of draws)
+			off := r.Intn(n + 2)
+			switch r.Intn(4) {
+			case 0, 1:
+				off = 0
+			case 2:
+				off = r.Intn(4)
+			}
+			return fmt.Sprintf("prefix %s %s %d %d %d", hb, hx(pre), off, lim, now)
 		default:
 			pre := k
 			if len(pre) > 0 {
 				pre = pre[:r.Intn(len(pre))]
 			}
 			lim := r.Intn(6) + 1
-			if r.Intn(3) == 0 {
+			switch r.Intn(6) {
+			case 0, 1:
 				lim = -1
+			case 2:
+				lim = len(s.usedKeys[b]) + 5 + r.Intn(20) // more than the bucket can hold
 			}
 			return fmt.Sprintf("psearch %s %s %d %d %d %d", hb, hx(pre), r.Intn(len(rxSet)), 0, lim, now)
 		}
@@ -1393,8 +1411,11 @@ func (s *dbSuite) genBigOp(r *rand.Rand) string {
 			off = r.Intn(12)
 		}
 		lim := 1 + r.Intn(6)
-		if r.Intn(4) == 0 {
+		switch r.Intn(8) {
+		case 0, 1:
 			lim = -1
+		case 2:
+			lim = n + 5 + r.Intn(50) // more than the bucket can hold
 		}
 		return fmt.Sprintf("prefix %s %s %d %d %d", hb, hx(pre), off, lim, now)
 	case 5:
